@@ -21,7 +21,6 @@ from .core import (
     ddmin,
     digest,
     fork_call,
-    import_parglare,
     sha_bytes,
     StepBudgetExceeded,
     StepClock,
